@@ -1,15 +1,204 @@
-// Package inner is the generic engine linked into every batch test binary.
+// Package inner is the generic engine linked into every batch test binary. It iterates over
+// the generated packages registered with verif/harness/rt and runs rapid properties whose
+// generators are built from the message descriptors of the generated Go types.
 package inner
 
 import (
+	"crypto/sha256"
+	"encoding/hex"
+	"encoding/json"
+	"fmt"
+	"os"
+	"sort"
+	"strings"
 	"testing"
+	"time"
 
+	"pgregory.net/rapid"
+
+	"verif/harness/rapidx"
 	"verif/harness/rt"
 )
 
+// Config is read from the file named by VERIF_INNER_CONFIG.
+type Config struct {
+	Checks   []string          `json:"checks"`
+	Seed     uint64            `json:"seed"`
+	Cases    int               `json:"cases"`
+	Report   string            `json:"report"`
+	Shard    int               `json:"shard"`
+	Shards   int               `json:"shards"`
+	Only     string            `json:"only,omitempty"`      // schema id filter
+	OnlyUnit string            `json:"only_unit,omitempty"` // unit filter (message / rpc name)
+	Avoid    map[string]string `json:"avoid,omitempty"`
+	Shrink   string            `json:"shrink,omitempty"` // shrink budget per failure (duration)
+	Extra    map[string]string `json:"extra,omitempty"`
+}
+
+// Result is the outcome of one (check, schema, unit) property.
+type Result struct {
+	Check       string         `json:"check"`
+	Schema      string         `json:"schema"`
+	Unit        string         `json:"unit"`
+	Cases       int            `json:"cases"`
+	Nontrivial  []string       `json:"nontrivial,omitempty"` // hashed distinct non-trivial case keys
+	Classes     map[string]int `json:"classes,omitempty"`
+	Excluded    map[string]int `json:"excluded,omitempty"`
+	Unspecified int            `json:"unspecified,omitempty"`
+	Samples     []any          `json:"samples,omitempty"`
+	Failed      bool           `json:"failed,omitempty"`
+	Flaky       bool           `json:"flaky,omitempty"`
+	Message     string         `json:"message,omitempty"`
+	Seed        uint64         `json:"seed"`
+	Digest      string         `json:"digest,omitempty"` // behaviour digest (c14b)
+	Skipped     string         `json:"skipped,omitempty"`
+
+	nt map[string]bool
+}
+
+// Report is what the batch binary writes.
+type Report struct {
+	Results []*Result `json:"results"`
+	WallS   float64   `json:"wall_s"`
+}
+
+func (r *Result) class(name string) {
+	if r.Classes == nil {
+		r.Classes = map[string]int{}
+	}
+	r.Classes[name]++
+}
+
+func (r *Result) excluded(name string) {
+	if r.Excluded == nil {
+		r.Excluded = map[string]int{}
+	}
+	r.Excluded[name]++
+}
+
+func (r *Result) nontrivial(key string) {
+	if r.nt == nil {
+		r.nt = map[string]bool{}
+	}
+	h := sha256.Sum256([]byte(r.Check + "|" + r.Schema + "|" + r.Unit + "|" + key))
+	r.nt[hex.EncodeToString(h[:8])] = true
+}
+
+func (r *Result) sample(v any) {
+	if len(r.Samples) < 2 {
+		r.Samples = append(r.Samples, v)
+	}
+}
+
+func (r *Result) finish() {
+	for k := range r.nt {
+		r.Nontrivial = append(r.Nontrivial, k)
+	}
+	sort.Strings(r.Nontrivial)
+}
+
+// unitFn runs one property; it fills res and uses run() to execute rapid.
+type unit struct {
+	check  string
+	schema string
+	name   string
+	prop   func(res *Result) func(t *rapid.T)
+	// direct, if set, runs instead of a rapid property (for digests etc.)
+	direct func(res *Result)
+}
+
+type engine struct {
+	cfg   *Config
+	units []*unit
+}
+
+var checkBuilders = map[string]func(e *engine, p *rt.Package){}
+
+func (e *engine) avoid(sw string) bool { return e.cfg.Avoid != nil && e.cfg.Avoid[sw] != "" }
+
 // Run is the single test entry point of a batch binary.
 func Run(t *testing.T) {
-	for _, p := range rt.Packages() {
-		t.Logf("package %s/%s: %d services, %d messages", p.ID, p.Variant, len(p.Services), len(p.Messages))
+	path := os.Getenv("VERIF_INNER_CONFIG")
+	if path == "" {
+		for _, p := range rt.Packages() {
+			t.Logf("package %s/%s: %d services, %d messages", p.ID, p.Variant, len(p.Services), len(p.Messages))
+		}
+		return
 	}
+	b, err := os.ReadFile(path)
+	if err != nil {
+		t.Fatalf("config: %v", err)
+	}
+	cfg := &Config{}
+	if err := json.Unmarshal(b, cfg); err != nil {
+		t.Fatalf("config: %v", err)
+	}
+	if cfg.Shards == 0 {
+		cfg.Shards = 1
+	}
+	shrink := 10 * time.Second
+	if cfg.Shrink != "" {
+		if d, err := time.ParseDuration(cfg.Shrink); err == nil {
+			shrink = d
+		}
+	}
+	e := &engine{cfg: cfg}
+	for _, p := range rt.Packages() {
+		if cfg.Only != "" && p.ID != cfg.Only {
+			continue
+		}
+		for _, c := range cfg.Checks {
+			b, ok := checkBuilders[c]
+			if !ok {
+				t.Fatalf("unknown inner check %q", c)
+			}
+			b(e, p)
+		}
+	}
+	start := time.Now()
+	rep := &Report{}
+	for i, u := range e.units {
+		if i%cfg.Shards != cfg.Shard {
+			continue
+		}
+		if cfg.OnlyUnit != "" && u.name != cfg.OnlyUnit {
+			continue
+		}
+		res := &Result{Check: u.check, Schema: u.schema, Unit: u.name}
+		h := sha256.Sum256([]byte(fmt.Sprintf("%d|%s|%s|%s", cfg.Seed, u.check, u.schema, u.name)))
+		seed := uint64(h[0]) | uint64(h[1])<<8 | uint64(h[2])<<16 | uint64(h[3])<<24 | uint64(h[4])<<32 | uint64(h[5])<<40 | uint64(h[6])<<48
+		if seed == 0 {
+			seed = 1
+		}
+		res.Seed = seed
+		if u.direct != nil {
+			u.direct(res)
+		} else {
+			prop := u.prop(res)
+			rr := rapidx.Check(u.check+"/"+u.schema+"/"+u.name, cfg.Cases, seed, shrink, func(t *rapid.T) {
+				res.Cases++
+				prop(t)
+			})
+			if rr.Failed {
+				res.Failed = true
+				res.Flaky = rr.Flaky
+				res.Message = rr.Message
+			}
+		}
+		res.finish()
+		rep.Results = append(rep.Results, res)
+	}
+	rep.WallS = time.Since(start).Seconds()
+	out, _ := json.Marshal(rep)
+	if err := os.WriteFile(cfg.Report, out, 0o644); err != nil {
+		t.Fatalf("report: %v", err)
+	}
+}
+
+func short(s string, n int) string {
+	s = strings.ToValidUTF8(s, "?")
+	if len(s) > n {
+		return s[:n] + "…"
+	}
+	return s
 }
